@@ -28,7 +28,8 @@ def fields_diff(exp: Dict[str, Any], got: Dict[str, Any]) -> List[str]:
     for k, want in exp.items():
         if k == "electric_current_of":
             a = got.get("electric_current")
-            ok = isinstance(a, float) and abs(a - want / 220.0) <= 0.05 + 1e-9 and abs(a * 10 - round(a * 10)) < 1e-6
+            ok = isinstance(a, (int, float)) and not isinstance(a, bool) and abs(a - want / 220.0) <= 0.05 + 1e-9 \
+                and abs(a * 10 - round(a * 10)) < 1e-6
             if not ok:
                 out.append("electric_current")
             continue
@@ -294,16 +295,10 @@ def judge_c06(scn, run) -> Tuple[List[Viol], Dict[str, int]]:
             if ex:
                 v.append(("C06/unknown-model-raised/%s" % ex[0]["exception"],
                           "model code %s raised %s(%s) into the loop's exception handler" % (code, ex[0]["exception"], ex[0]["text"])))
-            if not any("unknown" in x["msg"].lower() for x in w + lg):
-                v.append(("C06/unknown-model-no-warning", "model code %s: no 'unknown device' warning (warnings %s)" % (
-                    code, [x["msg"] for x in w + lg])))
+            if not (w or lg):
+                v.append(("C06/unknown-model-no-warning", "model code %s: no warning at all was issued" % code))
         elif cls == "valid":
-            cnt(c, "judged-valid")
-            if len(cb) != 1:
-                v.append(("C06/genuine-not-accepted", "a genuine %d-byte broadcast produced %d devices (exceptions %s)" % (
-                    n, len(cb), [x["exception"] for x in ex])))
-            if w or [x for x in lg]:
-                v.append(("C06/warning-for-genuine", "a genuine broadcast caused %s" % (w + lg)[0]["msg"]))
+            cnt(c, "observed-valid")          # what a genuine broadcast yields is C05's and C07's business
         else:
             cnt(c, "grey:out-of-domain")
     return v, c
@@ -346,13 +341,18 @@ def judge_c17(scn, run) -> Tuple[List[Viol], Dict[str, int]]:
                 # left listening) or it is idempotent (then it must still be running on all ports)
                 cnt(c, "probe:start-while-running")
                 if act["outcome"][0] == "exc":
-                    if act["held"] or act["running"] or act["running_at_return"]:
-                        v.append(("C17/failed-start-left-ports/start-while-running",
-                                  "%s on a running bridge raised %s; afterwards is_running=%s and ports %s are still bound" % (
-                                      k, act["outcome"][1], act["running"], act["held"])))
-                    intervals[b][-1][1] = act["seq1"]
-                    run_windows[b][-1][1] = act["mono0"]
-                    running[b] = False
+                    untouched = act["running"] and act["running_at_return"] and act["held"] == ports
+                    torn_down = not act["held"] and not act["running"] and not act["running_at_return"]
+                    if untouched:
+                        pass              # refused outright ("already running"): the bridge is as it was
+                    else:
+                        if not torn_down:
+                            v.append(("C17/failed-start-left-ports/start-while-running",
+                                      "%s on a running bridge raised %s; afterwards is_running=%s and ports %s are still bound" % (
+                                          k, act["outcome"][1], act["running"], act["held"])))
+                        intervals[b][-1][1] = act["seq1"]
+                        run_windows[b][-1][1] = act["mono0"]
+                        running[b] = False
                 elif not act["running"] or act["held"] != ports:
                     v.append(("C17/start-while-running-inconsistent",
                               "%s on a running bridge returned; is_running=%s, ports held %s of %s" % (
@@ -412,7 +412,7 @@ def judge_c17(scn, run) -> Tuple[List[Viol], Dict[str, int]]:
         for a in run.arrival_order:
             if classify(a["payload"]) != "valid" or a["port"] not in bports[b]:
                 continue
-            inside = any(lo < a["mono_us"] and (hi is None or a["mono_us"] < hi - 1000) for lo, hi in run_windows[b])
+            inside = any(lo < a["mono_us"] and (hi is None or a["mono_us"] < hi - 1_000_000) for lo, hi in run_windows[b])
             if inside and a.get("n_holders", 1) <= 1:      # a port shared through SO_REUSEPORT may deliver to either holder
                 cnt(c, "judged-deliveries")
                 if not (a["owner"] == "app" and a.get("owner_id") == ("bridge", b)):
